@@ -2099,8 +2099,9 @@ static uint64_t bufr_rd_section4(bufr_read_callback readcb, void *cd,
    unsigned char   c;
    int64_t        total;
 
-   bufr->s4.len = bufr_read_int3b( readcb, cd );
-   if (bufr->s4.len < 0) return -1;
+   len = bufr_read_int3b( readcb, cd );
+   if (len < 0) return -1; /* s4.len is unsigned: test before storing */
+   bufr->s4.len = len;
 
    /* discard */
 	if( 1 != bufr_read_octet( readcb, cd, &c ) ) return -1;
@@ -2122,6 +2123,8 @@ static uint64_t bufr_rd_section4(bufr_read_callback readcb, void *cd,
       {
       len = bufr->s4.len - bufr->s4.header_len;
       }
+
+   if (len < 0) return -1; /* the section lengths do not fit in the total length of Section 0 */
 
    bufr_alloc_sect4( bufr, len );
 
